@@ -389,4 +389,20 @@ CLAIMS = {
                 "uninterpreted CH/ROOTS; the CoverageArchive contracts are those proved under C13; termination of update() is not "
                 "proved.",
     },
+    "C08": {
+        "category": "proof",
+        "text": "Unbounded proof on the real code of the line-level decision: AstInfo._in_cover is False for every no-cover line and "
+                "otherwise True exactly when only_cover is empty, or names the line, some (not excluded) line of the scope, or an "
+                "enclosing definition; ModuleAstInfo.__post_init__ raises ValueError exactly when only-cover and no-cover lines "
+                "overlap.",
+        "note": "the statement itself - no goal inside excluded code, every executable line outside it is a goal - depends on the "
+                "AST walks of should_cover_line / should_be_covered / should_cover_conditional_statement, on the bytecode "
+                "instrumentation and on install_import_hook; it is covered only by the bounded stand-in (a 45-line template "
+                "module through the real import hook with a marker on every single code line, every scope name as no_cover / "
+                "only_cover / ignore_methods entry and their pairs), never counted as proved. Oracle conventions: a marked "
+                "if/for/while/try header excludes its first suite, a marked else/except/finally line its clause, a marked def/"
+                "class line or a named scope the whole scope; 'with' is not conditional (only the marked line is excluded); "
+                "'executable line' = line goal of the module without exclusions. scope_line_range and nodes_of_class are "
+                "abstracted by uninterpreted LO/HI/DEFS.",
+    },
 }
